@@ -451,6 +451,53 @@ def gen_case_defaults(rng, nq=10):
     return {"sig": sig, "base": [{"vec": v, "B": B, "A": A} for v, (B, A) in zip(bv, conds)], "qs": qs, "via": "api"}
 
 
+def gen_case_chain(rng, nq=12):
+    """Specificity chains (exceptions of exceptions): bases with three or more tolerance layers over 4-5 atoms, with
+    queries whose antecedents are arbitrary depth-2 formulas (biconditional-like shapes included)."""
+    k = rng.choice([3, 3, 4])
+    sig = SIG[: k + 1] if rng.random() < 0.6 or k == 4 else SIG[: k + 2]
+    cls, prop = sig[:k], sig[k]
+    for _ in range(50):
+        conds = []
+        sign = rng.random() < 0.5
+        for i, c in enumerate(cls):
+            conds.append((M.V(prop) if sign else M.Not(M.V(prop)), M.V(c)))
+            sign = not sign
+            if i + 1 < len(cls):
+                conds.append((M.V(c), M.V(cls[i + 1])))
+        if rng.random() < 0.5:
+            g = gen_cond(sig, rng)
+            conds.append((g["B"], g["A"]))
+        rng.shuffle(conds)
+        bv = [M.cond_vec(B, A, sig) for B, A in conds]
+        fin, inf = pysem.part(bv)
+        if not inf and len(fin) >= 3:
+            break
+    else:
+        return None
+    qs, seen = [], set()
+    for _ in range(nq * 3):
+        r = rng.random()
+        if r < 0.5:
+            A = M.random_formula(sig, 2, rng, 0.0)
+            B = M.V(rng.choice(sig)) if rng.random() < 0.5 else M.Not(M.V(rng.choice(sig)))
+        elif r < 0.8:
+            x, y = rng.sample(sig, 2)
+            iff = M.Or(M.And(M.V(x), M.V(y)), M.And(M.Not(M.V(x)), M.Not(M.V(y))))
+            A = M.And(M.V(rng.choice(sig)), iff if rng.random() < 0.5 else M.Not(iff))
+            B = M.V(rng.choice(sig)) if rng.random() < 0.5 else M.Not(M.V(rng.choice(sig)))
+        else:
+            g = gen_cond(sig, rng)
+            B, A = g["B"], g["A"]
+        t = M.render_cond(B, A)
+        if t not in seen:
+            seen.add(t)
+            qs.append({"vec": M.cond_vec(B, A, sig), "B": B, "A": A})
+        if len(qs) >= nq:
+            break
+    return {"sig": sig, "base": [{"vec": v, "B": B, "A": A} for v, (B, A) in zip(bv, conds)], "qs": qs, "via": "api"}
+
+
 def search_distinguishing(chk: Check, rng, n_cases, nq=30):
     """Live search (thorough tier): TLC evaluates the as-coded variants against the definitions on seeded 3-atom cases,
     checks that every algorithm of InfOCFAlgo refines its definition there, and returns the distinguishing inputs."""
